@@ -187,6 +187,7 @@ def run(sim, plan):
             peer.send(rc.control(rc.SELECT_REQ, 0x5E1EC7 + conn_no["n"]))
         current["peer"] = peer
         if not sim.wait_until(lambda: ep.state == "CONNECTED_SELECTED", 6):
+            current["tcp_up_but_not_selected"] = True
             return None
         return peer
 
@@ -308,6 +309,12 @@ def run(sim, plan):
             sim.wait_until(lambda: ep.state == "NOT_CONNECTED", 10)
             peer = establish(plan["t5"] + 10)
             if peer is None:
+                if current.get("tcp_up_but_not_selected"):
+                    # the TCP connection is up again but the endpoint does not serve it: nothing sent on the
+                    # re-established link is handed to the application
+                    sim.violation("C06.R4", f"after the link was lost ({kind}) and re-established the endpoint does not "
+                                  f"answer the Select procedure any more (state {ep.state}); no message can be delivered",
+                                  sig="C06.R4|no-service-after-reconnect|" + kind)
                 sim.inconclusive("link could not be re-established (C09's subject)")
             link_epochs += 1
             fault_spans.append((fault_times[-1], sim.now))
